@@ -217,6 +217,18 @@ func checkRingMove(cx *CheckCtx, a *Analysis, m *Method, count, old, id *Term, c
 		}
 		cx.decide(len(why) == 0, "ring-move", key+"/shrink", "current < new: slot t := slot t+(old−new) for t = current+1 … new−1; current ≥ new: slot t := slot t+(current−new+1) for t = 0 … new−1 and current := new−1", "shrinking the ring does not keep exactly the most recent maps: "+joinWhy(why), shrink.s.Where(w))
 	}
+	// ---- every target slot is written: no iteration of a move loop goes round its Put (a move that is
+	// skipped for an empty source leaves the target's old map in place — the slot keeps answering for an
+	// epoch it no longer belongs to; an empty source cannot be stored, which makes such a resize fault and
+	// change nothing, and that is the behaviour the statement allows)
+	for _, mv := range []*move{grow, shrink} {
+		ok, why := everyElement(a, mv.s, nil)
+		dir := "grow"
+		if mv == shrink {
+			dir = "shrink"
+		}
+		cx.decide(ok, "ring-move", key+"/"+dir+"/every-slot", "every iteration of the move loop writes its target slot", "a target slot of the resize can be left as it was ("+why+"): its stale map stays readable as the snapshot of an epoch that has left the ring", mv.s.Where(w))
+	}
 	// ---- deleted slots
 	{
 		var why []string
